@@ -42,7 +42,7 @@ structure JobTok (cfg : Cfg) (s : St) (b : Job) : Prop where
     ∃ m, b.out = some m ∧ s.content m.no = cfg.merge (b.inputs.map (fun x => s.content x.no))
   shape : editRange b.pc = true →
     (b.kind = .flush → b.edit.dels = [] ∧ b.edit.adds = b.out.toList) ∧
-    (b.kind = .rollupDone → b.edit.dels = [] ∧ b.edit.adds = []) ∧
+    ((b.kind = .rollupDone ∨ b.kind = .rollupJob) → b.edit.dels = [] ∧ b.edit.adds = []) ∧
     (b.kind = .compact → b.edit.dels = b.inputs.map (fun m => (m.level, m.no)) ∧
       (b.trivial = true → b.edit.adds = b.inputs.map (fun m => { m with level := m.level + 1 })) ∧
       (b.trivial = false → b.edit.adds = b.out.toList)) ∧
@@ -294,7 +294,10 @@ theorem built_version_props {cfg : Cfg} {s : St} {j : Nat} (hs : Safe s) (ht : T
         rw [ha] at hm
         exact absurd (List.mem_map.mpr ⟨x, hx, hxm⟩) (hhid m.no (by cases ho : (s.job j).out <;> simp_all [outNo]) s.cur)
     | rollupDone =>
-      obtain ⟨hd, ha⟩ := hshape.2.1 hk
+      obtain ⟨hd, ha⟩ := hshape.2.1 (Or.inl hk)
+      apply nodup_applyEdit hnd <;> simp [ha]
+    | rollupJob =>
+      obtain ⟨hd, ha⟩ := hshape.2.1 (Or.inr hk)
       apply nodup_applyEdit hnd <;> simp [ha]
     | delObs => exact absurd hk hshape.2.2.2
     | compact =>
@@ -331,7 +334,8 @@ theorem built_version_props {cfg : Cfg} {s : St} {j : Nat} (hs : Safe s) (ht : T
         rw [(hshape.1 hkind).2] at hm
         have : m.no ∈ outNo (s.job j) := by cases ho : (s.job j).out <;> simp_all [outNo]
         exact hs.outs_distinct k j hk hj hkj m.no hf this
-      | rollupDone => rw [(hshape.2.1 hkind).2] at hm; cases hm
+      | rollupDone => rw [(hshape.2.1 (Or.inl hkind)).2] at hm; cases hm
+      | rollupJob => rw [(hshape.2.1 (Or.inr hkind)).2] at hm; cases hm
       | delObs => exact absurd hkind hshape.2.2.2
       | compact =>
         obtain ⟨hd, hat, haf⟩ := hshape.2.2.1 hkind
@@ -481,7 +485,8 @@ theorem tok_jSwap {cfg : Cfg} {s : St} {j : Nat} (hm : MergerOk cfg.merge) (hs :
         have hd : (s.job j).edit.dels = [] := by
           cases hkind : (s.job j).kind with
           | flush => exact (hshape.1 hkind).1
-          | rollupDone => exact (hshape.2.1 hkind).1
+          | rollupDone => exact (hshape.2.1 (Or.inl hkind)).1
+          | rollupJob => exact (hshape.2.1 (Or.inr hkind)).1
           | compact => exact absurd hkind hjnc
           | delObs => exact absurd hkind hshape.2.2.2
         rw [nodel_edit_files _ _ hd]
@@ -517,7 +522,11 @@ theorem tok_jSwap {cfg : Cfg} {s : St} {j : Nat} (hm : MergerOk cfg.merge) (hs :
       rw [hX]
       exact (List.Perm.append_right _ hT).trans List.perm_append_comm
     | rollupDone =>
-      obtain ⟨hd, ha⟩ := hshape.2.1 hkind
+      obtain ⟨hd, ha⟩ := hshape.2.1 (Or.inl hkind)
+      rw [nodel_edit_files _ _ hd, ha]
+      simpa using hT
+    | rollupJob =>
+      obtain ⟨hd, ha⟩ := hshape.2.1 (Or.inr hkind)
       rw [nodel_edit_files _ _ hd, ha]
       simpa using hT
     | delObs => exact absurd hkind hshape.2.2.2
